@@ -147,7 +147,7 @@ pub fn c20(ctx: &Ctx) -> Report {
                         }
                     }
                     lc.count("twin_steps", 1);
-                    if a.value().to_bits() != b.value().to_bits() || a.verif_key() != b.verif_key() {
+                    if a.value().to_bits() != b.value().to_bits() {
                         let mut script = vec![format!("twin:{}:{:?}:{:?}", ["attack", "decay", "sustain", "release"][which as usize], v, bound)];
                         script.extend(ops.iter().map(|s| s.to_string()));
                         lc.violation(viol("twin-envelope-differs", format!("envelope configured with {:?} outputs {:?}, with the bound {:?} outputs {:?}", v, a.value(), bound, b.value()), json!({"fs": fs}), script));
@@ -313,7 +313,7 @@ pub fn replay(config: &Value, ops: &[String]) -> Vec<String> {
                             _ => x.gate_off(),
                         }
                     }
-                    let bad = a.value().to_bits() != b.value().to_bits() || a.verif_key() != b.verif_key();
+                    let bad = a.value().to_bits() != b.value().to_bits();
                     out.push(format!("{:<9} -> {:?} / {:?}{}", parts[0], a.value(), b.value(), if bad { "   !! C20 [twin-envelope-differs]" } else { "" }));
                 }
             }
